@@ -64,230 +64,138 @@ theorem resyncLoop_some (fin : List KV × Nat) (hfin : fin.2 ≠ 0) :
     · simp only [hf, Bool.false_eq_true, if_false, Bool.not_true]
       exact watchPart _ _ _ (Nat.le_refl _)
 
-/-! ### procMode never changes -/
+/-! ### proc never changes -/
 
-theorem sendDels_mode (wc : WC) : wc.sendDels.procMode = wc.procMode := by
+theorem sendDels_mode (wc : WC) : wc.sendDels.proc = wc.proc := by
   unfold WC.sendDels
   generalize sortKeys (keysOf wc.res) = ks
   induction ks generalizing wc with
   | nil => rfl
-  | cons k ks ih => simp only [List.foldl_cons]; rw [ih, send_procMode]
+  | cons k ks ih => simp only [List.foldl_cons]; rw [ih, send_proc]
 
-theorem sendDeletionsForAll_mode (wc : WC) : wc.sendDeletionsForAll.procMode = wc.procMode := by
+theorem sendDeletionsForAll_mode (wc : WC) : wc.sendDeletionsForAll.proc = wc.proc := by
   unfold WC.sendDeletionsForAll WC.clearAll
-  show wc.leaveWaitIfAny.sendDels.procMode = _
+  show wc.leaveWaitIfAny.sendDels.proc = _
   rw [sendDels_mode]
   unfold WC.leaveWaitIfAny
   split
-  · exact send_procMode _ _
+  · exact send_proc _ _
   · rfl
 
-theorem handleConverted_mode (wc : WC) (kv : KV) : (wc.handleConverted kv).procMode = wc.procMode := by
+theorem handleConverted_mode (wc : WC) (kv : KV) : (wc.handleConverted kv).proc = wc.proc := by
   unfold WC.handleConverted WC.handleDeleted WC.handleAddMod
   split
   · simp only
     split
-    · show (WC.send _ _).procMode = _; rw [send_procMode, markAsValid_procMode]
-    · exact markAsValid_procMode _ _
+    · show (WC.send _ _).proc = _; rw [send_proc, markAsValid_proc]
+    · exact markAsValid_proc _ _
   · simp only
     split
     · split
-      · exact markAsValid_procMode _ _
-      · show (WC.send _ _).procMode = _; rw [send_procMode, markAsValid_procMode]
-    · show (WC.send _ _).procMode = _; rw [send_procMode, markAsValid_procMode]
+      · exact markAsValid_proc _ _
+      · show (WC.send _ _).proc = _; rw [send_proc, markAsValid_proc]
+    · show (WC.send _ _).proc = _; rw [send_proc, markAsValid_proc]
 
-theorem handleWatchListEvent_mode (wc : WC) (kv : KV) : (wc.handleWatchListEvent kv).procMode = wc.procMode := by
+theorem handleWatchListEvent_mode (wc : WC) (kv : KV) : (wc.handleWatchListEvent kv).proc = wc.proc := by
+  have fold : ∀ (c : List KV) (w : WC), (c.foldl WC.handleConverted w).proc = w.proc := by
+    intro c
+    induction c with
+    | nil => intro w; rfl
+    | cons x xs ih => intro w; simp only [List.foldl_cons]; rw [ih, handleConverted_mode]
   unfold WC.handleWatchListEvent
   simp only
   split
-  · rw [handleConverted_mode]
-  · have : ∀ (c : List KV) (w : WC), (c.foldl WC.handleConverted w).procMode = w.procMode := by
-      intro c
-      induction c with
-      | nil => intro w; rfl
-      | cons x xs ih => intro w; simp only [List.foldl_cons]; rw [ih, handleConverted_mode]
-    split
-    · rw [send_procMode, this]
-    · rw [this]
+  · rw [send_proc, fold]
+  · rw [fold]
 
-theorem sweep_mode (wc : WC) : wc.sweep.procMode = wc.procMode := by
+theorem sweep_mode (wc : WC) : wc.sweep.proc = wc.proc := by
   unfold WC.sweep
   split
   · split
     · rfl
-    · show (WC.send _ _).procMode = _; rw [send_procMode]
+    · show (WC.send _ _).proc = _; rw [send_proc]
   · rfl
 
-theorem finishResync_mode (wc : WC) : wc.finishResync.procMode = wc.procMode := by
+theorem finishResync_mode (wc : WC) : wc.finishResync.proc = wc.proc := by
   unfold WC.finishResync
-  rw [send_procMode, sweep_mode, leaveWait_mode]
+  rw [send_proc, sweep_mode, leaveWait_mode]
 
-theorem processList_mode (wc : WC) (kvs : List KV) : (wc.processList kvs).procMode = wc.procMode := by
+theorem processList_mode (wc : WC) (kvs : List KV) : (wc.processList kvs).proc = wc.proc := by
   unfold WC.processList
   rw [finishResync_mode]
-  have : ∀ (c : List KV) (w : WC), (c.foldl WC.handleWatchListEvent w).procMode = w.procMode := by
+  have : ∀ (c : List KV) (w : WC), (c.foldl WC.handleWatchListEvent w).proc = w.proc := by
     intro c
     induction c with
     | nil => intro w; rfl
     | cons x xs ih => intro w; simp only [List.foldl_cons]; rw [ih, handleWatchListEvent_mode]
   rw [this]
-  show wc.listSucceeded.leaveWait.procMode = _
+  show wc.listSucceeded.leaveWait.proc = _
   rw [leaveWait_mode]; rfl
 
-theorem listStep_mode (wc : WC) (lo : ListOut) : (listStep wc lo).1.procMode = wc.procMode := by
+theorem listStep_mode (wc : WC) (lo : ListOut) : (listStep wc lo).1.proc = wc.proc := by
   unfold listStep
   simp only
   cases lo with
   | notFound =>
     simp only [WC.onListNotFound]
-    show wc.beginFull.finishResync.procMode = _
-    rw [finishResync_mode, beginFull_mode]
+    show wc.beginFull.notifyConverter.finishResync.proc = _
+    rw [finishResync_mode, notifyConverter_proc, beginFull_mode]
   | expired => simp only [WC.onListExpired]; exact beginFull_mode wc
   | other e =>
     simp only [WC.onListOther]
     split
     · split
-      · rw [sendDeletionsForAll_mode, send_procMode]; exact beginFull_mode wc
-      · rw [send_procMode]; exact beginFull_mode wc
+      · rw [sendDeletionsForAll_mode, send_proc]; exact beginFull_mode wc
+      · rw [send_proc]; exact beginFull_mode wc
     · exact beginFull_mode wc
   | ok kvs lrev =>
     simp only
     split
-    · show (wc.beginFull.processList kvs).procMode = _; rw [processList_mode, beginFull_mode]
-    · show (wc.beginFull.processList kvs).procMode = _; rw [processList_mode, beginFull_mode]
+    · show (wc.beginFull.notifyConverter.processList kvs).proc = _
+      rw [processList_mode, notifyConverter_proc, beginFull_mode]
+    · show (wc.beginFull.notifyConverter.processList kvs).proc = _
+      rw [processList_mode, notifyConverter_proc, beginFull_mode]
 
 theorem watchStep_same (wc : WC) (full : Bool) (wo : WatchOut) :
-    (watchStep wc full wo).1.procMode = wc.procMode ∧ (watchStep wc full wo).1.res = wc.res ∧
-      (watchStep wc full wo).1.old = wc.old := by
+    (watchStep wc full wo).1.proc = wc.proc ∧ (watchStep wc full wo).1.res = wc.res ∧
+      (watchStep wc full wo).1.old = wc.old ∧ (watchStep wc full wo).1.pst = wc.pst := by
   unfold watchStep
   cases wo with
-  | ok => exact ⟨rfl, rfl, rfl⟩
-  | expired => exact ⟨rfl, rfl, rfl⟩
-  | connRefused e => simp only; split <;> exact ⟨rfl, rfl, rfl⟩
-  | notSupported => exact ⟨rfl, rfl, rfl⟩
-  | other => exact ⟨rfl, rfl, rfl⟩
+  | ok => exact ⟨rfl, rfl, rfl, rfl⟩
+  | expired => exact ⟨rfl, rfl, rfl, rfl⟩
+  | connRefused e => simp only; split <;> exact ⟨rfl, rfl, rfl, rfl⟩
+  | notSupported => exact ⟨rfl, rfl, rfl, rfl⟩
+  | other => exact ⟨rfl, rfl, rfl, rfl⟩
 
-/-! ### which list the cache holds when the watch is created -/
-
-/-- The cache holds exactly one of the lists `cs`, converted. -/
-def IsListView (mode : Nat) (cs : List (List KV)) (wc : WC) : Prop :=
-  ∃ L ∈ cs, ∀ k, view wc k = (L.flatMap (convert mode)).foldl applyKV emptyView k
-
-theorem IsListView.of_eq {mode : Nat} {cs : List (List KV)} {wc w : WC} (h : IsListView mode cs wc)
-    (hr : w.res = wc.res) (ho : w.old = wc.old) : IsListView mode cs w := by
-  obtain ⟨L, hL, hv⟩ := h
-  refine ⟨L, hL, fun k => ?_⟩
-  rw [← hv k]
-  simp [view, oldLookup, hr, ho]
+/-! ### which list the cache holds right after a successful List step -/
 
 theorem listStep_listed {m0 : View} {st0 : Nat} {wc : WC} (h : Good m0 st0 wc) (lo : ListOut)
     (hgo : (listStep wc lo).2.2 = true) :
     ∃ kvs lrev, lo = .ok kvs lrev ∧
-      ∀ k, view (listStep wc lo).1 k = (kvs.flatMap (convert wc.procMode)).foldl applyKV emptyView k := by
+      (∀ k, view (listStep wc lo).1 k = (convSeq wc.proc [] kvs).foldl applyKV emptyView k) ∧
+      (listStep wc lo).1.pst = convState wc.proc [] kvs := by
   cases lo with
   | notFound => simp [listStep] at hgo
   | expired => simp [listStep] at hgo
   | other e => simp [listStep] at hgo
   | ok kvs lrev =>
-    refine ⟨kvs, lrev, rfl, ?_⟩
-    have l := processList_ok (beginFull_good h) kvs
-    intro k
-    have lv := l.view k
-    rw [beginFull_mode] at lv
-    rw [← lv]
-    unfold listStep
-    simp only
-    split
-    · simp [view, oldLookup]
-    · simp [view, oldLookup]
-
-/-- If a full resync is owed when the loop starts (or the cache already holds a listed view), then when the
-watch is finally created — after ANY scripted sequence of List and Watch failures — the cache holds exactly one
-of the successfully listed snapshots, converted. -/
-theorem resyncLoop_listed {m0 : View} {st0 : Nat} (fin : List KV × Nat) (mode : Nat) (cs : List (List KV))
-    (hfin : fin.1 ∈ cs) :
-    ∀ (fuel : Nat) (wc : WC) (full : Bool) (lists : List ListOut) (watches : List WatchOut),
-      Good m0 st0 wc → (wc.status = stWait → full = true ∨ wc.rev = 0) → wc.procMode = mode →
-      (∀ kvs r, ListOut.ok kvs r ∈ lists → kvs ∈ cs) →
-      (IsListView mode cs wc ∨ full = true ∨ wc.rev = 0) →
-      ∀ w, resyncLoop fin fuel wc full lists watches = some w → IsListView mode cs w ∧ w.procMode = mode := by
-  intro fuel
-  induction fuel with
-  | zero => intro wc full lists watches _ _ _ _ _ w hw; simp [resyncLoop] at hw
-  | succ n ih =>
-    intro wc full lists watches hg ho hm hcs hq w hw
-    unfold resyncLoop at hw
-    simp only at hw
-    have htail : ∀ kvs r, ListOut.ok kvs r ∈ lists.tail → kvs ∈ cs :=
-      fun kvs r hmem => hcs kvs r (List.mem_of_mem_tail hmem)
-    -- after the watch step
-    have watchPart : ∀ (w1 : WC) (f : Bool) (ls : List ListOut), Good m0 st0 w1 → w1.status ≠ stWait →
-        w1.procMode = mode → IsListView mode cs w1 → (∀ kvs r, ListOut.ok kvs r ∈ ls → kvs ∈ cs) →
-        (if (watchStep w1 f (watches.headD WatchOut.ok)).2.2 = true then
-            some (watchStep w1 f (watches.headD WatchOut.ok)).1
-          else resyncLoop fin n (watchStep w1 f (watches.headD WatchOut.ok)).1
-            (watchStep w1 f (watches.headD WatchOut.ok)).2.1 ls watches.tail) = some w →
-        IsListView mode cs w ∧ w.procMode = mode := by
-      intro w1 f ls g1 hs1 hm1 hl1 hls hw1
-      obtain ⟨pm, rs, ol⟩ := watchStep_same w1 f (watches.headD WatchOut.ok)
-      have hwk := watchStep_ok g1 f (watches.headD WatchOut.ok)
-      have hl2 : IsListView mode cs (watchStep w1 f (watches.headD WatchOut.ok)).1 := hl1.of_eq rs ol
-      split at hw1
-      · simp only [Option.some.injEq] at hw1
-        subst hw1
-        exact ⟨hl2, by rw [pm]; exact hm1⟩
-      · exact ih _ _ _ _ hwk.1 (fun c => by rw [hwk.2] at c; exact absurd c hs1) (by rw [pm]; exact hm1) hls
-          (Or.inl hl2) w hw1
-    by_cases hf : (full || decide (wc.rev = 0)) = true
-    · simp only [hf, if_true] at hw
-      have hls := listStep_ok hg (lists.headD (ListOut.ok fin.1 fin.2))
-      have hmode : (listStep wc (lists.headD (ListOut.ok fin.1 fin.2))).1.procMode = mode := by
-        rw [listStep_mode]; exact hm
-      by_cases hgo : (listStep wc (lists.headD (ListOut.ok fin.1 fin.2))).2.2 = true
-      · simp only [hgo, Bool.not_true, Bool.false_eq_true, if_false] at hw
-        obtain ⟨kvs, lrev, elo, hv⟩ := listStep_listed hg _ hgo
-        have hmem : kvs ∈ cs := by
-          cases lists with
-          | nil =>
-            simp only [List.headD_nil, ListOut.ok.injEq] at elo
-            rw [← elo.1]; exact hfin
-          | cons l ls =>
-            simp only [List.headD_cons] at elo
-            exact hcs kvs lrev (by rw [elo]; exact List.mem_cons_self ..)
-        have hl : IsListView mode cs (listStep wc (lists.headD (ListOut.ok fin.1 fin.2))).1 :=
-          ⟨kvs, hmem, fun k => by rw [hv k, hm]⟩
-        exact watchPart _ _ _ hls.good (hls.go hgo) hmode hl htail hw
-      · have hgo' : (listStep wc (lists.headD (ListOut.ok fin.1 fin.2))).2.2 = false := by simpa using hgo
-        simp only [hgo', Bool.not_false, if_true] at hw
-        -- every non-continuing list outcome leaves `performFullResync` set
-        have hfull : (listStep wc (lists.headD (ListOut.ok fin.1 fin.2))).2.1 = true := by
-          revert hgo'
-          unfold listStep
-          simp only
-          cases lists.headD (ListOut.ok fin.1 fin.2) with
-          | notFound => intro _; rfl
-          | expired => intro _; rfl
-          | other e => intro _; rfl
-          | ok kvs lrev =>
-            simp only
-            split
-            · intro _; rfl
-            · intro c; cases c
-        exact ih _ _ _ _ hls.good hls.owed hmode htail (Or.inr (Or.inl hfull)) w hw
-    · simp only [hf, Bool.false_eq_true, if_false, Bool.not_true] at hw
-      have hnf : full = false ∧ wc.rev ≠ 0 := by
-        simp only [Bool.or_eq_true, decide_eq_true_eq, not_or] at hf
-        exact ⟨by simpa using hf.1, hf.2⟩
-      have hl : IsListView mode cs wc := by
-        rcases hq with h1 | h1 | h1
-        · exact h1
-        · rw [hnf.1] at h1; cases h1
-        · exact absurd h1 hnf.2
-      have hs : wc.status ≠ stWait := by
-        intro c
-        rcases ho c with h1 | h1
-        · rw [hnf.1] at h1; cases h1
-        · exact absurd h1 hnf.2
-      exact watchPart _ _ _ hg hs hm hl hcs hw
+    refine ⟨kvs, lrev, rfl, ?_, ?_⟩
+    · have l := processList_ok (notifyConverter_good (beginFull_good h)) kvs
+      intro k
+      have lv := l.view k
+      rw [notifyConverter_proc, notifyConverter_pst, beginFull_mode] at lv
+      rw [← lv]
+      unfold listStep
+      simp only
+      split
+      · simp [view, oldLookup]
+      · simp [view, oldLookup]
+    · have l := processList_ok (notifyConverter_good (beginFull_good h)) kvs
+      have lp := l.pst
+      rw [notifyConverter_proc, notifyConverter_pst, beginFull_mode] at lp
+      rw [← lp]
+      unfold listStep
+      simp only
+      split <;> rfl
 
 end CalicoVerif.C26
